@@ -1,5 +1,9 @@
 from .common import H, TOPOS_QUICK
 
+# TSan is used only as a third, schedule-perturbing build (value oracles decide); its reports about Galois
+# internals are counted in the evidence and must not turn into an exit code of the harness process.
+TSAN_ENV = dict(TSAN_OPTIONS="halt_on_error=0:report_signal_unsafe=0:history_size=4:second_deadlock_stack=0:exitcode=0")
+
 # One harness (c16_pstl); one case = one ParallelSTL algorithm x one generated input x one thread count.
 # Quick: asan + plain on the three quick topologies. Thorough: the same scaled up, more topologies (incl. 32 and
 # 48 pool threads on 16 CPUs: partial_sum's empty trailing blocks need more threads than ~sqrt(n)) and tsan as a
@@ -9,19 +13,24 @@ from .common import H, TOPOS_QUICK
 def c16(tier):
     runs = []
     if tier == "quick":
-        for t in TOPOS_QUICK:
-            runs.append(H("c16_pstl", "plain", 1500, t, timeout_per_case=20))
-            runs.append(H("c16_pstl", "asan", 500, t, timeout_per_case=40))
-        runs.append(H("c16_pstl", "plain", 150, "12,12,12,12", timeout_per_case=60, params=dict(maxn=20000)))
+        for i, t in enumerate(TOPOS_QUICK):
+            runs.append(H("c16_pstl", "plain", 1500, t, timeout_per_case=20, params=dict(salt=2 * i)))
+            runs.append(H("c16_pstl", "asan", 500, t, timeout_per_case=40, params=dict(salt=2 * i + 1)))
+        # 48 pool threads: the only way to reach partial_sum's empty trailing blocks (boost = partial_sum)
+        runs.append(H("c16_pstl", "plain", 250, "12,12,12,12", timeout_per_case=60,
+                      params=dict(maxn=20000, boost=6, salt=20)))
     else:
-        for t in [None, "8,8", "4,4,4,4", "3,5", "1,1,1,1", "smt:2x2x2"]:
-            runs.append(H("c16_pstl", "plain", 12000, t, timeout_per_case=20))
-            runs.append(H("c16_pstl", "asan", 3000, t, timeout_per_case=40))
-        for t in ["12,12,8", "12,12,12,12"]:
-            runs.append(H("c16_pstl", "plain", 1500, t, timeout_per_case=60, params=dict(maxn=20000)))
-        runs.append(H("c16_pstl", "plain", 600, "12,12,8", cpus=4, timeout_per_case=120, params=dict(maxn=20000)))
-        runs.append(H("c16_pstl", "tsan", 1200, None, timeout_per_case=90))
-        runs.append(H("c16_pstl", "tsan", 1200, "4,4,4,4", timeout_per_case=90))
+        for i, t in enumerate([None, "8,8", "4,4,4,4", "3,5", "1,1,1,1", "smt:2x2x2"]):
+            runs.append(H("c16_pstl", "plain", 12000, t, timeout_per_case=20, params=dict(salt=2 * i)))
+            runs.append(H("c16_pstl", "asan", 3000, t, timeout_per_case=40, params=dict(salt=2 * i + 1)))
+        runs.append(H("c16_pstl", "plain", 1500, "12,12,8", timeout_per_case=60, params=dict(maxn=20000, salt=20)))
+        runs.append(H("c16_pstl", "plain", 1500, "12,12,12,12", timeout_per_case=60,
+                      params=dict(maxn=20000, boost=6, salt=21)))
+        # threads >> CPUs: arbitrary-point preemption between the block claims
+        runs.append(H("c16_pstl", "plain", 600, "12,12,8", cpus=4, timeout_per_case=120,
+                      params=dict(maxn=20000, salt=22)))
+        runs.append(H("c16_pstl", "tsan", 1200, None, timeout_per_case=90, env=TSAN_ENV, params=dict(salt=30)))
+        runs.append(H("c16_pstl", "tsan", 1200, "4,4,4,4", timeout_per_case=90, env=TSAN_ENV, params=dict(salt=31)))
     return runs
 
 
@@ -57,7 +66,8 @@ SPEC = dict(
              "cases_map_reduce": 15, "cases_partial_sum": 20, "cases_destroy": 5,
              "parallel_path_cases": 300, "multi_thread_cases": 150, "multi_socket_cases": 50,
              "delays_injected": 1000, "find_if_cases_with_match": 10, "find_if_cases_without_match": 3,
-             "partition_serial_cleanup_calls": 1000, "sort_unstable_adjacent_pairs": 1},
+             "partition_serial_cleanup_calls": 1000, "sort_unstable_adjacent_pairs": 1,
+             "partial_sum_cases_with_empty_blocks": 1},
     assumptions=["std:: algorithms of libstdc++ are the reference",
                  "binary operations given to accumulate/map_reduce are associative and commutative and the identity "
                  "argument is their identity (Reducible's documented contract); floating-point inputs are exactly summable",
